@@ -73,6 +73,11 @@ type streamSide struct {
 	gotIn    int64
 	wrDone   bool
 	rdErr    error
+	// rdDeadlineMs > 0: the application polls - it arms a read deadline of
+	// that many (virtual) milliseconds before every Read, and reads on after a
+	// timeout.  A timeout is not a fault of the stream: nothing may be lost.
+	rdDeadlineMs int
+	timeouts     int
 	ending   *bool
 }
 
@@ -108,9 +113,28 @@ func (sd *streamSide) start(c *harness.Ctx, conn net.Conn, prop string) {
 	s.Go(sd.name+"/reader", func() {
 		buf := make([]byte, sd.rdBuf)
 		for {
+			if sd.rdDeadlineMs > 0 {
+				if err := conn.SetReadDeadline(time.Now().Add(msec(sd.rdDeadlineMs))); err != nil {
+					c.Violate(prop+"/set-read-deadline-failed", "%s SetReadDeadline: %v", sd.name, err)
+					return
+				}
+			}
 			n, err := conn.Read(buf)
 			if *sd.ending {
 				return
+			}
+			if ne, ok := err.(net.Error); ok && ne.Timeout() && sd.rdDeadlineMs > 0 {
+				c.S.Count("fault.read-deadline-expired", 1)
+				err = nil
+				// after a number of timeouts the application goes back to
+				// blocking reads (keeps the cost of idle stretches bounded)
+				if sd.timeouts++; sd.timeouts >= 40 {
+					sd.rdDeadlineMs = 0
+					if err := conn.SetReadDeadline(time.Time{}); err != nil {
+						c.Violate(prop+"/set-read-deadline-failed", "%s SetReadDeadline(zero): %v", sd.name, err)
+						return
+					}
+				}
 			}
 			if n > 0 {
 				if bad := patCheck(sd.dirIn, sd.gotIn, buf[:n]); bad >= 0 {
@@ -162,6 +186,9 @@ func runC01(c *harness.Ctx) {
 	cs := &streamSide{name: "c", dirOut: 0, dirIn: 1, plan: drawWrites(c, "cw", 6), rdBuf: []int{32768, 1, 7, 1427, 4096}[t.Draw("c.rdbuf", 5)], ending: &ending}
 	ss := &streamSide{name: "s", dirOut: 1, dirIn: 0, plan: drawWrites(c, "sw", 6), rdBuf: []int{32768, 1, 7, 1427, 4096}[t.Draw("s.rdbuf", 5)], ending: &ending}
 	cs.expectIn, ss.expectIn = planTotal(ss.plan), planTotal(cs.plan)
+	cs.rdDeadlineMs = []int{0, 0, 0, 1, 20, 300}[t.Draw("c.rddl", 6)]
+	ss.rdDeadlineMs = []int{0, 0, 0, 1, 20, 300}[t.Draw("s.rddl", 6)]
+	c.Info["client_read_deadline_ms"], c.Info["server_read_deadline_ms"] = cs.rdDeadlineMs, ss.rdDeadlineMs
 	c.Info["iat"], c.Info["bias"] = iat, bias
 	c.Info["client_writes"], c.Info["server_writes"] = cs.plan, ss.plan
 	c.Info["client_rdbuf"], c.Info["server_rdbuf"] = cs.rdBuf, ss.rdBuf
